@@ -237,6 +237,30 @@ def rule_c(ctx):
             rep.add('C11.c', '%s.dispose / cancels the producer' % h.name, d, ok,
                     'subscription/future is cancelled (or shown absent) on all %d paths' % len(paths) if ok else
                     'a dispose() path neither cancels the producer nor shows there is none')
+            # ... whatever the application's call-backs do on the way: a call-out that raises before the producer is
+            # cancelled leaves dispose() with the producer still running (stop_all_streams only logs the exception)
+            bad = None
+            n_exc = 0
+            for p in m.run(ens[0], pre0, exc=('app',)):
+                if p.outcome != 'raise':
+                    continue
+                app_raise = [e for e in p.events if e.kind == 'raise' and e.data.get('implicit') == 'app']
+                if not app_raise:
+                    continue
+                n_exc += 1
+                none_shown = any(e.kind == 'cond' and e.data['key'][0] == 'isnone' and e.data['value'] is True
+                                 for e in p.events)
+                src = [e for e in p.events if e.seq == app_raise[0].data.get('call')]
+                # the raising call-out being the producer's own cancel() is the producer's business
+                if src and src[0].data.get('name') == 'cancel':
+                    continue
+                if not m.producer_cancelled(p) and not none_shown:
+                    bad = (src[0].data.get('name') if src else '?', app_raise[0].line)
+            rep.add('C11.c', '%s.dispose / the producer is cancelled before any call-out that can fail' % h.name, d,
+                    bad is None,
+                    'no application call-out precedes the cancellation (%d exception paths)' % n_exc if bad is None else
+                    'dispose() calls %s() (line %s) before it cancels the producer: if that call-back raises, the '
+                    'publisher keeps producing after the connection is gone' % bad)
     # the synthetic frame carries CONNECTION_ERROR
     g = ctx.repo.func('rsocket.rsocket_base:RSocketBase._on_connection_closed')
     codes = set()
@@ -334,8 +358,22 @@ def _reachable_methods(cls, start, max_depth=6):
 
 
 def _kills(f):
-    """Attributes X for which f contains cancel_if_task_exists(self.X) or self.X.cancel()."""
+    """Attributes X for which f contains cancel_if_task_exists(self.X) or self.X.cancel() - also through a local
+    that was given the attribute's value (`t = self.X` / `t, self.X = self.X, None`)."""
     out = set()
+    alias = {}
+    for n in walk_local(f.node):
+        if isinstance(n, ast.Assign) and len(n.targets) == 1:
+            tg, val = n.targets[0], n.value
+            pairs = []
+            if isinstance(tg, ast.Name):
+                pairs = [(tg, val)]
+            elif isinstance(tg, ast.Tuple) and isinstance(val, ast.Tuple) and len(tg.elts) == len(val.elts):
+                pairs = list(zip(tg.elts, val.elts))
+            for t_, v_ in pairs:
+                if isinstance(t_, ast.Name) and isinstance(v_, ast.Attribute) and isinstance(v_.value, ast.Name) and \
+                        v_.value.id == 'self':
+                    alias[t_.id] = v_.attr
     for n in walk_local(f.node):
         if isinstance(n, ast.Call):
             fn = n.func
@@ -344,13 +382,13 @@ def _kills(f):
                 if isinstance(a, ast.Attribute) and isinstance(a.value, ast.Name) and a.value.id == 'self':
                     out.add(a.attr)
                 elif isinstance(a, ast.Name):
-                    out.add('local:' + a.id)
+                    out.add(alias.get(a.id, 'local:' + a.id))
             if isinstance(fn, ast.Attribute) and fn.attr == 'cancel':
                 a = fn.value
                 if isinstance(a, ast.Attribute) and isinstance(a.value, ast.Name) and a.value.id == 'self':
                     out.add(a.attr)
                 elif isinstance(a, ast.Name):
-                    out.add('local:' + a.id)
+                    out.add(alias.get(a.id, 'local:' + a.id))
     return out
 
 
